@@ -14,26 +14,6 @@ Proof. intros H E. subst. rewrite veqb_refl in H. discriminate. Qed.
 
 Definition I2 : list (list Qc) := [[q 1 1; q 0 1]; [q 0 1; q 1 1]].
 
-(* multi-level composite of two linear members: the code's tensor() maps x to T_0(x) + T_1(x), not to
-   x + u_0(x) + u_1(x); two identity HomogeneousTransforms send x to 2 x *)
-Definition ml_witness : list (member (K:=QcF)) :=
-  [(FH, [[q 1 1; q 0 1; q 0 1]; [q 0 1; q 1 1; q 0 1]]); (FH, [[q 1 1; q 0 1; q 0 1]; [q 0 1; q 1 1; q 0 1]])].
-Lemma multilevel_sum_refuted :
-  exists (ms : list (member (K:=QcF))) (X : list Qc),
-    Forall (m_ok 2) ms /\ length X = 2%nat /\
-    happly 2 (ml_tensor 2 ms) X <> ml_spec_linear 2 ms X /\
-    happly 2 (ml_tensor 2 ms) X = vscale (K:=QcF) (q 2 1) X /\ ml_spec_linear 2 ms X = X.
-Proof.
-  exists ml_witness, [q 1 2; q 1 4]. split; [|split; [reflexivity|split; [|split]]].
-  - repeat constructor.
-  - apply veqb_neq. vm_compute. reflexivity.
-  - apply veqb_eq. vm_compute. reflexivity.
-  - apply veqb_eq. vm_compute. reflexivity.
-Qed.
-(* ... and the sum is accumulated IN the first member's own tensor when that is already homogeneous *)
-Lemma multilevel_overwrites_first_member : gen_ml_overwrites_first FH = true.
-Proof. reflexivity. Qed.
-
 (* dense field of a linear transform on a grid with ANOTHER domain: affine_flow applies the matrix, which is
    defined in the own grid's cube coordinates, to the other grid's cube coordinates.  Translation by 1/2 cube
    units of an 8 x 6 grid = 2 world units; on the 16 x 6 grid of the same spacing the field should be 1/4. *)
